@@ -25,6 +25,7 @@
 #include "vf_main.hpp"
 
 #include <Eigen/Core>
+#include <Eigen/SVD>
 #include <algorithm>
 #include <memory>
 #include "romea_core_common/regression/leastsquares/LeastSquares.hpp"
@@ -663,11 +664,16 @@ void resolveBody(vf::Ctx & c)
   std::vector<int> path;
   {
     bool scaledDown = false;   // the content has been multiplied by small weights
+    int nWeighted = 0;
     for (int k = 0; k < nSolves; ++k) {
       int pk = static_cast<int>(c.s.pick("path", {1, 1, 1}));   // SVD / Cholesky / weighted
       // the SVD path discards singular values of J^T J below epsilon *absolutely* (documented domain: well-scaled J):
       // once small weights have been applied in place it is outside its domain - use the Cholesky path there
       if (pk == 0 && scaledDown) {pk = 1;}
+      // every weighted solve multiplies the stored rows by weights spanning a factor 4: after two of them the content
+      // is already 16 times worse conditioned, more would only test the tolerance formula
+      if (pk == 2 && nWeighted >= 2) {pk = 1;}
+      if (pk == 2) {nWeighted++;}
       if (pk == 2 && wScale != 0) {scaledDown = true;}
       path.push_back(pk);
     }
@@ -768,7 +774,17 @@ void resolveBody(vf::Ctx & c)
       LD bmag = 0, amax = 0;
       for (int k = 0; k < p; ++k) {bmag += b[k] * b[k]; amax = std::max(amax, 1 / A[k]);}
       // rounding: solving with cond(J)^2, forming J^T J / J^T Y with m terms, un-preconditioning
-      LD tol = 64 * eps * (static_cast<LD>(condJ) * condJ * p * nJ * nY + (rows + p) * nJ * nJ * (nx + amax * sqrtl(bmag)) + rows * nJ * nY);
+      // conditioning of the content as it is NOW (in-place weighting changes it): singular values of the current J
+      double condNow = condJ;
+      {
+        Eigen::MatrixXd Jm(rows, p);
+        for (int r = 0; r < rows; ++r) {for (int k = 0; k < p; ++k) {Jm(r, k) = static_cast<double>(J[static_cast<size_t>(r) * p + k]);}}
+        Eigen::JacobiSVD<Eigen::MatrixXd> svd(Jm);
+        const double smin = svd.singularValues()(p - 1), smax = svd.singularValues()(0);
+        condNow = smin > 0 ? smax / smin : 1e300;
+      }
+      c.maxStat("resolve: condition number of the content at solve time", condNow);
+      LD tol = 64 * eps * (static_cast<LD>(condNow) * condNow * p * nJ * nY + (rows + p) * nJ * nJ * (nx + amax * sqrtl(bmag)) + rows * nJ * nY);
       c.maxStat(sizeof(S) == 4 ? "resolve: normal-equation residual / tolerance (float)" : "resolve: normal-equation residual / tolerance (double)", static_cast<double>(ng / tol));
       VF_CHECK(c, ng <= tol, "%s: the estimate does not solve the problem that is currently loaded: |J^T(Jx-Y)| = %.3Lg > %.3Lg (p=%d rows=%d cond=%.3g; |J^T Y|-scale %.3Lg)",
         who.c_str(), ng, tol, p, rows, condJ, nJ * nY);
